@@ -189,3 +189,57 @@ def step_contract(k):
 
 for _k in range(256):
     step_contract(_k)
+
+
+# ---------------------------------------------------------------- the evaluation loop
+@contract("pycoin.vm.VM:VM.eval_instruction")
+class step_any_opcode:
+    """what every per-opcode step contract above states about the loop state, as one contract for the call in
+    eval_script (where the opcode is not fixed).  Not verified as such: it is the conjunction of ensures_loop_state and of
+    the must-fail conditions of the 252 proved per-opcode contracts; the four CHECKSIG-family entries are not covered."""
+    props = ["C03"]
+    verify = False
+    assumed_reason = ("conjunction of the proved per-opcode step contracts (loop_state clauses and limit failures) for 252 of the 256 "
+                      "opcode values; unproved for OP_CHECKSIG, OP_CHECKSIGVERIFY, OP_CHECKMULTISIG, OP_CHECKMULTISIGVERIFY")
+    sig = dict(self=VM)
+    assigns = ["self!", "self.stack", "self.altstack", "self.conditional_stack"]
+
+    def requires(self):
+        return 0 <= self.pc and self.pc < len(self.script)
+
+    def ensures_loop_state(self, result):
+        return (self.pc == decode_newpc(old(self.script), old(self.pc)), decode_ok(old(self.script), old(self.pc)),
+                self.script == old(self.script), self.flags == old(self.flags),
+                self.conditional_stack.true_count >= 0, self.conditional_stack.false_count >= 0)
+
+    raises = [(ScriptError, None, False)]
+
+
+@contract("pycoin.vm.VM:VM.eval_script")
+class eval_script:
+    """the script-size limit, the fetch loop staying inside the script, and the final checks (balanced conditionals, stack
+    size) -- over the step contract above"""
+    props = ["C03"]
+    sig = dict(self=VM)
+    assigns = ["self!", "self.stack", "self.altstack", "self.conditional_stack"]
+
+    def requires(self):
+        return self.pc == 0 and self.conditional_stack.true_count >= 0 and self.conditional_stack.false_count >= 0
+
+    def _too_long(self):
+        return len(self.script) > 10000
+
+    def ensures_final_state(self, result):
+        return (len(self.script) <= 10000, self.script == old(self.script), self.pc >= len(self.script),
+                self.conditional_stack.true_count == 0, self.conditional_stack.false_count == 0,
+                len(listval(self.stack)) + len(listval(self.altstack)) <= 1000)
+
+    raises = [(ScriptError, _too_long, 'must')]
+    canaries = [("len(self.script) > self.MAX_SCRIPT_LENGTH", "len(self.script) > self.MAX_SCRIPT_LENGTH + 1"),
+                ("self.post_script_check()", "pass")]
+
+
+@invariant("pycoin.vm.VM:VM.eval_script", 0, modifies=["self!", "self.stack", "self.altstack", "self.conditional_stack"])
+def _eval_loop_inv(self, old_self):
+    return (0 <= self.pc, self.script == old(self.script), len(self.script) <= 10000,
+            self.conditional_stack.true_count >= 0, self.conditional_stack.false_count >= 0)
